@@ -50,19 +50,20 @@ SPEC = {
         "Orchard/Ironwood bundle commitments are computed by the orchard dependency crate",
     ],
     "tiers": {
-        "quick": {"shards": 10, "budget_s": 40, "extra": {"n-events": 260, "max-cases": 2500}},
+        "quick": {"shards": 12, "budget_s": 45, "extra": {"n-events": 320, "max-cases": 4000}},
         "thorough": {"shards": 16, "budget_s": 600, "extra": {"n-events": 2600, "max-cases": 60000}},
     },
     "floors": {
         "quick": {
-            "evaluations": 1_000_000, "distinct_nontrivial": 3000,
-            "tx_v5": 3000, "tx_v6": 2000, "tx_v4": 3000, "tx_v3": 600, "tx_v1": 300, "tx_v2": 300,
-            "field_mutations": 150_000, "authorising_field_mutations": 25_000, "coin_mutations": 10_000, "structure_mutations": 20_000,
-            "sighash_must_change_checks": 800_000, "sighash_exclusion_checks": 300_000, "hash_type_distinctness_checks": 8000,
-            "coinbase_cases": 500, "single_index_beyond_outputs_cases": 2000, "v5plus_without_transparent_inputs": 500,
-            "branch_personalisation_checks": 3000, "arb_tx_cases": 30,
-            "py_v5_tx_checked": 500, "py_v5_sighashes_checked": 5000, "py_pre_v5_txid_checked": 600, "py_v5_coinbase_checked": 10,
-            "py_v5_single_out_of_range_checked": 50, "py_zip244_vectors_validated": 10,
+            # time-budgeted on a shared machine: floors are ~1/3 of what a quiet 16-core run observes
+            "evaluations": 600_000, "distinct_nontrivial": 1500,
+            "tx_v5": 1200, "tx_v6": 800, "tx_v4": 700, "tx_v3": 250, "tx_v1": 80, "tx_v2": 80, "tx_v2hi": 80,
+            "field_mutations": 50_000, "authorising_field_mutations": 10_000, "coin_mutations": 4000, "structure_mutations": 8000,
+            "sighash_must_change_checks": 300_000, "sighash_exclusion_checks": 120_000, "hash_type_distinctness_checks": 3000,
+            "coinbase_cases": 250, "single_index_beyond_outputs_cases": 900, "v5plus_without_transparent_inputs": 500,
+            "branch_personalisation_checks": 800, "arb_tx_cases": 24,
+            "py_v5_tx_checked": 800, "py_v5_sighashes_checked": 6000, "py_pre_v5_txid_checked": 300, "py_v5_coinbase_checked": 40,
+            "py_v5_single_out_of_range_checked": 400, "py_zip244_vectors_validated": 10,
             "field_coverage_pct_min": 100,
         },
         "thorough": {
